@@ -21,7 +21,7 @@ for p in props:
         "evidence_file": f"/verif/evidence/{pid}.json",
         "replay_cmd_template": f"./check {pid} --replay {{path}}",
         "engine": "coq-model+correspondence",
-        "level_claimed": {"category": "proof", "text": meta["level_text"], "design_ref": meta.get("design_ref", "DESIGN.md §5")},
+        "level_claimed": {"category": "proof", "text": ("PARTIAL — " if meta.get("partial") and not meta["level_text"].upper().startswith("PARTIAL") else "") + meta["level_text"], "design_ref": meta.get("design_ref", "DESIGN.md §5")},
         "level_note": meta["level_note"],
         "technique": meta.get("technique", "Coq proof over executable Gallina model + per-run correspondence with /repo"),
     })
